@@ -28,8 +28,9 @@ func init() {
 type stdRefCase struct {
 	Paths  []string          `json:"paths"`
 	Prefix string            `json:"prefix,omitempty"`
-	Hints  map[string]string `json:"-"`
-	Label  string            `json:"label"`
+	Hints   map[string]string `json:"-"`
+	Aliases map[string]string `json:"aliases,omitempty"` // ImportAlias hints
+	Label   string            `json:"label"`
 }
 
 // judgeStdOutput: for every path, the import spec and the qualifier actually written must agree with the
@@ -77,6 +78,10 @@ func judgeStdOutput(src []byte, paths []string, declared func(path string) []str
 			}
 		} else {
 			names := declared(p)
+			if names == nil {
+				probs = append(probs, fmt.Sprintf("%q is not a standard package yet it is imported without an alias (qualifier %s)", p, q))
+				continue
+			}
 			found := false
 			for _, n := range names {
 				if n == q {
@@ -100,6 +105,11 @@ func (sc stdRefCase) render() ([]byte, string) {
 	f.PackagePrefix = sc.Prefix
 	if sc.Hints != nil {
 		f.ImportNames(sc.Hints)
+	}
+	for _, p := range sc.Paths { // in path order, not map order
+		if a, ok := sc.Aliases[p]; ok {
+			f.ImportAlias(p, a)
+		}
 	}
 	for i, p := range sc.Paths {
 		f.Var().Id(fmt.Sprintf("V%d", i)).Op("=").Qual(p, fmt.Sprintf("StdSym%d", i))
@@ -197,6 +207,16 @@ func c18Domain(r *mon.Run) []stdRefCase {
 	for _, sp := range std {
 		out = append(out, stdRefCase{Paths: []string{sp.Path}, Label: "alone"})
 		out = append(out, stdRefCase{Paths: []string{sp.Path}, Prefix: "pk", Label: "alone+prefix"})
+	}
+	// explicit alias hints: the alias a human would write (the last path element, which is not always the
+	// package's name) and an arbitrary one; the import must then carry that alias
+	for _, sp := range std {
+		last := sp.Path[strings.LastIndex(sp.Path, "/")+1:]
+		if token.IsIdentifier(last) {
+			out = append(out, stdRefCase{Paths: []string{sp.Path}, Aliases: map[string]string{sp.Path: last}, Label: "alias=last-element"})
+		}
+		out = append(out, stdRefCase{Paths: []string{sp.Path}, Aliases: map[string]string{sp.Path: "ualias"}, Label: "alias=ualias"})
+		out = append(out, stdRefCase{Paths: []string{"x.y/" + last, sp.Path}, Label: "after-same-named-foreign-package"})
 	}
 	// colliding pairs (same declared name), both orders; and triples where they exist
 	byName := map[string][]string{}
